@@ -8,6 +8,7 @@ import (
 	"google.golang.org/grpc/credentials"
 	"google.golang.org/grpc/metadata"
 	"google.golang.org/grpc/peer"
+	"google.golang.org/grpc/status"
 )
 
 // CallOptions represents the state of in-effect grpc.CallOptions.
@@ -88,6 +89,11 @@ func ApplyPerRPCCreds(ctx context.Context, copts *CallOptions, uri string, isCha
 		}
 		md, err := copts.Creds.GetRequestMetadata(ctx, uri)
 		if err != nil {
+			if cerr := ctx.Err(); cerr != nil {
+				// the credentials gave up because the call's context has ended:
+				// the call ends like any other call on an ended context
+				return nil, status.FromContextError(cerr).Err()
+			}
 			return nil, err
 		}
 		if len(md) > 0 {
